@@ -10,7 +10,8 @@ contracts/maildir.py models `async with UidList.with_write(path) as uidl` as "th
   FileReadable.read_lock(cls, path)    FileLock(that file).read_lock() (waits for the absence of a writer) / no-op
   UidList.get_lock                     never None: the UID list always names a lock file
   _FileWriteWith._acquire_lock         enters exactly cls.write_lock(self._path)
-  _FileWriteWith.__aenter__            file_exists / file_read happen after the lock is entered, while it is held
+  _FileWriteWith.__aenter__            file_exists / file_read happen after the lock is entered, while it is held; when reading
+                                        fails the lock is left again (__aexit__ will not run)
   _FileWriteWith.__aexit__             file_write / file_delete happen while it is held; it is left on every exit
                                         (normal, RuntimeError, failing write) and only after the write
   _FileInitWith.__aenter__             the first write of a missing file happens under cls.write_lock(path)
@@ -167,7 +168,7 @@ def _file_access(what, sort, may_fail=False):
 _FWW_CALLS = {
     'self._cls.write_lock': _cls_write_lock, 'self._cls.read_lock': _cls_read_lock,
     'self._lock.__aenter__': _cm_enter, 'lock.__aexit__': _cm_exit,
-    'cls.file_exists': _file_access('file_exists', BOOL), 'cls.file_read': _file_access('file_read', FileObj),
+    'cls.file_exists': _file_access('file_exists', BOOL), 'cls.file_read': _file_access('file_read', FileObj, may_fail=True),
     'obj.file_write': _file_access('file_write', None, may_fail=True),
     'obj.file_delete': _file_access('file_delete', None, may_fail=True),
 }
@@ -201,12 +202,13 @@ def _held_on_entry(st, sc=None):
 
 aenter = Contract(
     'C04', F, '_FileWriteWith.__aenter__', params=dict(self=FWW), ghost_init=_ghost0, calls=_FWW_CALLS,
-    inline={'_FileWriteWith._acquire_lock'}, returns=FileObj,
+    inline={'_FileWriteWith._acquire_lock', '_FileWriteWith._release_lock'}, returns=FileObj,
+    raises={OSError: [('a_lock_that_was_entered_is_left_when_reading_the_file_fails', lambda s: ~s.ghost('held'))]},
     ensures=[_entered_the_write_lock,
              ('the_file_was_read_after_the_lock_was_entered', lambda s: VBool(
                  s._st.events.index('lock.enter') < s._st.events.index('file_read')
                  if 'lock.enter' in s._st.events and 'file_read' in s._st.events else False))],
-    raises_only=())
+    raises_only=(OSError,))
 aenter.attr_models = _FWW_ATTRS
 
 aexit = Contract(
